@@ -28,7 +28,10 @@ import (
 //	(f) c02GenNest     deep nesting of brackets, filters and parentheses
 //	(g) c02GenNumber   numeric spellings at and around the int / float limits in every number position
 //
-// Every string is clipped to 256 runes.
+//	(h) c02GenLong     long VALID paths (class `long`, C02 only): unions of 17..40 subscripts, multi-name lists
+//	                   of 16..40 names, 70..120 steps, 20..45 nested filters, long logical chains
+//
+// Every string is clipped to 256 runes, those of (h) to 4096.
 
 const c02MaxRunes = 256
 
@@ -643,6 +646,102 @@ func c02GenNumber(r *Rng) string {
 		return "$[" + n() + "," + opt() + ":" + opt() + ",*," + n() + "]"
 	}
 	return "$.." + "[" + opt() + ":" + opt() + ":" + n() + "]" + r.Pick([]string{"", ".a", "[" + n() + "]"})
+}
+
+// ---------- (h) long valid paths ----------
+
+// c02GenLong: grammatically valid paths that are long in one dimension (they must parse: the outcome
+// classes of C02 leave no room for anything but a function or a documented error).
+func c02GenLong(r *Rng) (string, string) {
+	var p *Path
+	kind := ""
+	pre := func() []*Step {
+		var steps []*Step
+		for n := r.Weighted([]int{50, 35, 15}); n > 0; n-- {
+			steps = append(steps, LongSteps(r, 1)...)
+		}
+		return steps
+	}
+	switch r.Weighted([]int{30, 25, 20, 15, 10}) {
+	case 0:
+		kind = "long-union"
+		u := &Step{Kind: StUnion, Subs: LongSubs(r, r.Range(0, 50), r.Range(17, 40))}
+		p = &Path{Head: HeadRoot, Steps: append(pre(), u)}
+		switch r.Intn(4) {
+		case 0:
+			p.Steps = append(p.Steps, LongSteps(r, 1)...)
+		case 1:
+			// the union inside a filter operand
+			p = &Path{Head: HeadRoot, Steps: []*Step{{Kind: StFilter, Q: &Query{Kind: QExist, P: &Path{Head: HeadCur, Steps: p.Steps}}}}}
+		case 2:
+			p.Steps = append([]*Step{{Kind: StDesc, Inner: u}}, LongSteps(r, 1)...)
+		}
+	case 1:
+		kind = "long-names"
+		pool := append(append([]string{}, BaseKeys...), OddKeys...)
+		m := &Step{Kind: StMulti, Names: LongNames(r, nil, r.Range(16, 40), pool, 15)}
+		p = &Path{Head: HeadRoot, Steps: append(pre(), m)}
+		if r.Chance(40) {
+			p.Steps = append(p.Steps, LongSteps(r, 1)...)
+		}
+	case 2:
+		kind = "long-path"
+		p = &Path{Head: HeadRoot, Steps: LongSteps(r, r.Range(70, 120))}
+		if r.Chance(40) {
+			at := r.Intn(len(p.Steps))
+			p.Steps[at] = &Step{Kind: StWild, Bracket: r.Chance(50)}
+		}
+		if r.Chance(25) {
+			p.Fns = []Fn{{Name: "id"}}
+		}
+	case 3:
+		kind = "long-nested-filters"
+		d := r.Range(20, 45)
+		inner := &Path{Head: HeadCur, Steps: LongSteps(r, 1)}
+		for k := 0; k < d; k++ {
+			var q *Query
+			switch r.Intn(4) {
+			case 0:
+				q = &Query{Kind: QCmp, Op: r.Intn(6), L: &Operand{Path: &Path{Head: HeadCur, Steps: LongSteps(r, 1)}}, R: &Operand{IsLit: true, Lit: Lit{Kind: LitNum, N: int64(r.Range(0, 3))}}}
+				q = &Query{Kind: QAnd, A: &Query{Kind: QExist, P: inner}, B: q}
+			case 1:
+				q = &Query{Kind: QExist, Neg: true, P: inner}
+			default:
+				q = &Query{Kind: QExist, P: inner}
+			}
+			inner = &Path{Head: HeadCur, Steps: []*Step{{Kind: StFilter, Q: q}}}
+			if r.Chance(30) {
+				inner.Steps = append(LongSteps(r, 1), inner.Steps...)
+			}
+		}
+		inner.Head = HeadRoot
+		p = inner
+	default:
+		kind = "long-logic"
+		n := r.Range(17, 40)
+		var q *Query
+		for k := 0; k < n; k++ {
+			b := &Query{Kind: QCmp, Op: r.Intn(6), L: &Operand{Path: &Path{Head: HeadCur, Steps: LongSteps(r, 1)}}, R: &Operand{IsLit: true, Lit: Lit{Kind: LitNum, N: int64(r.Range(0, 9))}}}
+			if r.Chance(25) {
+				b = &Query{Kind: QExist, Neg: r.Chance(40), P: &Path{Head: HeadCur, Steps: LongSteps(r, 1)}}
+			}
+			if q == nil {
+				q = b
+			} else {
+				q = &Query{Kind: QKind(r.Intn(2)), A: q, B: b}
+			}
+		}
+		p = &Path{Head: HeadRoot, Steps: append(pre(), &Step{Kind: StFilter, Q: q})}
+	}
+	var sp *Rng
+	if r.Chance(50) {
+		sp = r
+	}
+	s := Render(p, sp)
+	if utf8.RuneCountInString(s) > 4096 {
+		s = string([]rune(s)[:4096])
+	}
+	return s, kind
 }
 
 // ---------- small helpers ----------
